@@ -33,6 +33,11 @@ type Server struct {
 	disablePanicRecovery bool
 	shutdownCancel       context.CancelFunc
 	shutdownCtx          context.Context
+
+	// conns are the accepted connections which are still being served; Stop
+	// uses them to wake up connections blocked reading their next request
+	connsMu sync.Mutex
+	conns   map[int]net.Conn
 }
 
 // NewServer creates a new ldap server
@@ -211,9 +216,11 @@ func (s *Server) Run(addr string, opt ...Option) error {
 		default:
 		}
 		s.connWg.Add(1)
+		s.trackConn(localConnID, c)
 		s.mu.Unlock()
 		go func() {
 			defer func() {
+				s.untrackConn(localConnID)
 				s.logger.Debug("connWg done", "op", op, "conn", localConnID)
 				// release the wait group last, so Stop only returns once the
 				// conn is closed and the onCloseHandler has completed
@@ -291,6 +298,11 @@ func (s *Server) Stop() error {
 		s.logger.Debug("shutdown cancel func")
 		s.shutdownCancel()
 	}
+	// a connection only checks for the shutdown between requests, so wake up
+	// the ones blocked reading (idle clients, partial frames, pending TLS
+	// handshakes); otherwise a client could keep Stop from returning by
+	// simply keeping its connection open.
+	s.interruptReads()
 	s.logger.Debug("waiting on connections to close")
 	s.connWg.Wait()
 	s.logger.Debug("stopped")
@@ -308,4 +320,29 @@ func (s *Server) Router(r *Mux) error {
 	defer s.mu.Unlock()
 	s.router = r
 	return nil
+}
+
+func (s *Server) trackConn(connID int, c net.Conn) {
+	s.connsMu.Lock()
+	defer s.connsMu.Unlock()
+	if s.conns == nil {
+		s.conns = map[int]net.Conn{}
+	}
+	s.conns[connID] = c
+}
+
+func (s *Server) untrackConn(connID int) {
+	s.connsMu.Lock()
+	defer s.connsMu.Unlock()
+	delete(s.conns, connID)
+}
+
+// interruptReads makes pending and future reads of every tracked connection
+// fail, which ends the connection's read loop.
+func (s *Server) interruptReads() {
+	s.connsMu.Lock()
+	defer s.connsMu.Unlock()
+	for _, c := range s.conns {
+		_ = c.SetReadDeadline(time.Now())
+	}
 }
